@@ -348,6 +348,24 @@ class PeerWorld:
                 pass
         return True
 
+    def forget_remote(self) -> None:
+        """our side closed the transport: the remote speaker lets go of its end (no EOF is logged: nothing reads it any more)"""
+        if self.remote is not None:
+            t = self._readers.pop(id(self.remote), None)
+            if t is not None:
+                t.cancel()
+            try:
+                self.remote.close()
+            except OSError:
+                pass
+            self.remote = None
+
+    def readd_peer(self) -> None:
+        """the neighbour is configured again: the reactor creates a new Peer for it and starts its task"""
+        self.peer = Peer(self.neighbor, self.reactor)
+        self.peer.start_async_task()
+        self.tasks.append(self.peer._async_task)
+
     # -- running --------------------------------------------------------------------------------
     def run(self, director, horizon_ms: int = 200_000) -> list[dict]:
         """director: async callable(world) driving stimuli; returns the event log."""
